@@ -72,7 +72,7 @@ MFor(c, cfg, val) ==
     [cfg |-> cfg, hist |-> [h \in Histories(c) |-> {}], inited |-> {},
      dm |-> [n \in {CondVar(t) : t \in {x \in NT(c) : HasCond(c, x)}} |->
                 [def |-> TRUE, v |-> IF \E t \in val : CondVar(t) = n THEN 1 ELSE 0]],
-     iq |-> <<>>, eq |-> <<>>, atoms |-> <<>>, ok |-> TRUE, topfinal |-> FALSE, condErr |-> {}]
+     iq |-> <<>>, eq |-> <<>>, dq |-> <<>>, atoms |-> <<>>, ok |-> TRUE, topfinal |-> FALSE, condErr |-> {}]
 
 SeqSet(s) == {s[i] : i \in 1..Len(s)}
 
